@@ -37,6 +37,9 @@ type traceLine struct {
 
 var recTimes = []int64{-96, -72, -48, -24, -2, 2, 24, 48, 120, 166, 170, 192, 216}
 
+var recVersions = []string{"1", "2", "3", "4", "5", "6", "7", "8", "9", "10", "11", "12",
+	"org.matrix.msc3667", "org.matrix.msc3787", "org.matrix.msc4014", "org.matrix.hydra.11"}
+
 func pick[T any](r *rand.Rand, xs []T) T { return xs[r.Intn(len(xs))] }
 
 func randEntry(r *rand.Rand, good string) Entry {
@@ -71,6 +74,9 @@ func randScenario(r *rand.Rand) *Scenario {
 	servers := []string{"s1", "s2", "s3"}
 	kids := []string{"k1", "k2", "k3"}
 	nreq := 1 + r.Intn(5)
+	if r.Intn(40) == 0 {
+		nreq = 0 // the empty batch
+	}
 	wanted := map[string]bool{}
 	for i := 0; i < nreq; i++ {
 		q := Req{Srv: pick(r, servers), Form: "obj", TS: pick(r, recTimes), Strict: r.Intn(2) == 0, Sigs: []SigEnt{}}
@@ -93,6 +99,14 @@ func randScenario(r *rand.Rand) *Scenario {
 			if r.Intn(4) == 0 {
 				q.Sigs = append(q.Sigs, SigEnt{Kid: "u1", Alg: pick(r, []string{"rsa", "curve25519"}), By: "G"})
 			}
+		}
+		switch r.Intn(12) {
+		case 0:
+			q.TS = noTS // AtTS = 0
+		case 1, 2, 3:
+			// judged by a registered room version's own check (which ones are strict is the specification's business)
+			q.Ver = pick(r, recVersions)
+			q.Strict = false
 		}
 		if i > 0 && r.Intn(8) == 0 {
 			q = sc.Requests[r.Intn(i)] // the same request twice
@@ -130,6 +144,9 @@ func randScenario(r *rand.Rand) *Scenario {
 			}
 		}
 		sc.Fetchers = append(sc.Fetchers, f)
+	}
+	if sc.Requests == nil {
+		sc.Requests = []Req{}
 	}
 	if sc.Fetchers == nil {
 		sc.Fetchers = []Fetcher{}
@@ -196,6 +213,7 @@ func init() {
 		if a.Out == "" {
 			return fmt.Errorf("-out required")
 		}
+		setVocab(a.Seed)
 		tw, err := hx.NewTraceWriter(a.Out)
 		if err != nil {
 			return err
